@@ -40,6 +40,7 @@ type scriptedRequestor struct {
 	calls    map[model.Hash]int
 	bm       *bitcoin_reader.BlockManager
 	limit    int
+	latency  time.Duration
 	overLim  string
 	wg       sync.WaitGroup
 	finishes map[model.Hash]int
@@ -64,7 +65,7 @@ func (r *scriptedRequestor) RequestBlock(ctx context.Context, hash bitcoin.Hash3
 	if fate == "nonode" {
 		return nil, bitcoin_reader.ErrNodeNotAvailable
 	}
-	node := &fakeNode{id: uuid.New(), txCh: make(chan *wire.MsgTx)}
+	node := &fakeNode{id: uuid.New(), txCh: make(chan *wire.MsgTx), latency: r.latency}
 	r.wg.Add(1)
 	go func() {
 		defer r.wg.Done()
@@ -130,18 +131,19 @@ func (r *scriptedRequestor) RequestBlock(ctx context.Context, hash bitcoin.Hash3
 	return node, nil
 }
 
-const ruleMgr = "a real BlockManager (concurrentBlockRequests 1..3, request delay 2 ms) over a scripted block source: 1..4 queued requests, the fate of every successive download attempt drawn from {finish, fail (stream ends early), wrong block, peer drops before/mid block, never starts, no node available (bursts <= 12)}, optional abort of a request and optional shutdown at a drawn point; a collector per request listens on the channel returned by AddRequest for the whole case; oracle: while the manager runs every request ends in EXACTLY one terminal signal (channel closed = completed, or one BlockAborted value; never both, never twice, nothing else), completion implies a downloader for that hash processed the block (AppendBlockTxIDs recorded), RequestBlock is never called while the configured number of downloads of that block are active, the downloader list returns to empty, and after shutdown Run returns within 10 s with no goroutine parked in block_manager.go/block_downloader.go frames; non-trivial = >=2 download attempts for one request finishing/failing in different ways, or an abort/shutdown while a download is active; distinct = (concurrency, fates, abort/shutdown points)"
+const ruleMgr = "a real BlockManager (concurrentBlockRequests 1..4, cancel latency of the fake nodes 0..2 ms, request delay 2 ms) over a scripted block source: 1..4 queued requests, the fate of every successive download attempt drawn from {finish, fail (stream ends early), wrong block, peer drops before/mid block, never starts, no node available (bursts <= 12)}, optional abort of a request and optional shutdown at a drawn point; a collector per request listens on the channel returned by AddRequest for the whole case; oracle: while the manager runs every request ends in EXACTLY one terminal signal (channel closed = completed, or one BlockAborted value; never both, never twice, nothing else), completion implies a downloader for that hash processed the block (AppendBlockTxIDs recorded), RequestBlock is never called while the configured number of downloads of that block are active, the downloader list returns to empty, and after shutdown Run returns within 10 s with no goroutine parked in block_manager.go/block_downloader.go frames; non-trivial = >=2 download attempts for one request finishing/failing in different ways, or an abort/shutdown while a download is active; distinct = (concurrency, fates, abort/shutdown points)"
 
 func TestProp_C16_manager(t *testing.T) {
 	col := evid.For("C16", "manager", ruleMgr)
 	rapid.Check(t, func(t *rapid.T) {
 		k := col.NewCase()
 		ctx := vt.Ctx()
-		limit := rapid.IntRange(1, 3).Draw(t, "concurrent")
+		limit := rapid.IntRange(1, 4).Draw(t, "concurrent")
+		latency := rapid.SampledFrom([]time.Duration{0, 0, 100 * time.Microsecond, 500 * time.Microsecond, 2 * time.Millisecond}).Draw(t, "cancelLatency")
 		nReq := rapid.IntRange(1, 4).Draw(t, "requests")
 		log := spy.NewLog()
 		req := &scriptedRequestor{blocks: map[model.Hash]*blockDef{}, fates: map[model.Hash][]string{}, calls: map[model.Hash]int{},
-			limit: limit, finishes: map[model.Hash]int{}}
+			limit: limit, latency: latency, finishes: map[model.Hash]int{}}
 		bm := bitcoin_reader.NewBlockManager(spy.BlockTxs{L: log}, req, limit, 2*time.Millisecond)
 		req.bm = bm
 		type reqState struct {
@@ -162,7 +164,7 @@ func TestProp_C16_manager(t *testing.T) {
 			for j := 0; j < nf; j++ {
 				choices := []string{"fail", "wrong", "drop-before", "drop-mid", "nonode", "nonode"}
 				if limit >= 2 {
-					choices = append(choices, "never")
+					choices = append(choices, "never", "never")
 				}
 				f := rapid.SampledFrom(choices).Draw(t, "fate")
 				if f == "never" {
@@ -187,7 +189,26 @@ func TestProp_C16_manager(t *testing.T) {
 			}
 			fates = append(fates, "finish")
 			rs := &reqState{b: b, abortAfter: -1}
-			if rapid.IntRange(0, 4).Draw(t, "abort") == 0 {
+			switch rapid.IntRange(0, 5).Draw(t, "pattern") {
+			case 0: // every slot taken by a download that never starts, then the request is aborted
+				if limit >= 2 {
+					fates = nil
+					for x := 0; x < limit; x++ {
+						fates = append(fates, "never")
+					}
+					fates = append(fates, "finish")
+					rs.abortAfter = 2*limit + rapid.IntRange(1, 6).Draw(t, "abortAfterStall")
+				}
+			case 1: // all but one slot stalled, the last download finishes and the others are cancelled
+				if limit >= 2 {
+					fates = nil
+					for x := 0; x < limit-1; x++ {
+						fates = append(fates, "never")
+					}
+					fates = append(fates, "finish")
+				}
+			}
+			if rs.abortAfter < 0 && rapid.IntRange(0, 4).Draw(t, "abort") == 0 {
 				rs.abortAfter = rapid.IntRange(0, 8).Draw(t, "abortAfterMs")
 				// an aborted request may also be given a download that never starts
 				if limit >= 2 && rapid.Bool().Draw(t, "neverBeforeAbort") {
